@@ -329,6 +329,74 @@ def part_b(d, tier, seed):
     return evs, total, len(rej)
 
 
+def part_d(d):
+    """the build-script path has no flags: file over default - also when the file CHANGES between builds over one
+    output directory (a build must not keep what an earlier configuration left behind).  Every ordered pair X, Y of
+    file settings over project {A, B} x library {none, zod, absent} x force {absent, true} is run as X, Y, X with the
+    real BuildSystem driver; every run's observed effective settings must be Effective({}, file)."""
+    combos = [{"project": p_, "output": "A", "library": l_, "verbose": "absent", "force": f_}
+              for p_ in ("A", "B") for l_ in ("none", "zod", "absent") for f_ in ("absent", "true")]
+    absent = {"project": "absent", "output": "absent", "library": "absent", "verbose": "absent", "force": "absent"}
+    seqs = [(x, y) for x in combos for y in combos if x != y]
+
+    def build_once(root):
+        return subprocess.run([C.TTH, "build"], cwd=root, stdout=subprocess.PIPE, stderr=subprocess.PIPE, timeout=120)
+
+    def work(iseq):
+        i, (x, y) = iseq
+        root = os.path.join(d, "bseq-%d" % i)
+        shape = i % len(PATH_SHAPES)
+        sh = PATH_SHAPES[shape]
+        evs = []
+        for step, fv in enumerate((x, y, x)):
+            make_prec_sandbox(root, fv, "tauri_conf", shape) if step == 0 else write_conf_only(root, fv, shape)
+            r1 = build_once(root)
+            obs = {"project": "none", "output": "none", "library": "none", "verbose": "false", "force": "false"}
+            odir = os.path.join(root, os.path.normpath(sh["oA"]))
+            if r1.returncode == 0 and os.path.isfile(os.path.join(odir, "commands.ts")):
+                ctext = open(os.path.join(odir, "commands.ts")).read()
+                which = [k for k, mark in (("A", "'cmd_a'"), ("B", "'cmd_b'"), ("default", "'cmd_default'"), ("stray", "'cmd_stray'")) if mark in ctext]
+                obs["project"] = which[0] if len(which) == 1 else ("none" if not which else "+".join(which))
+                obs["output"] = "A"
+                obs["library"] = "zod" if "Generator: zod" in ctext else "none" if "Generator: none" in ctext else "?"
+                m1 = {n: os.stat(os.path.join(odir, n)).st_mtime_ns for n in os.listdir(odir) if n.endswith(".ts")}
+                time.sleep(0.01)
+                r2 = build_once(root)
+                m2 = {n: os.stat(os.path.join(odir, n)).st_mtime_ns for n in os.listdir(odir) if n.endswith(".ts")}
+                obs["force"] = "true" if (r2.returncode == 0 and m1 != m2) else "false"
+            evs.append({"event": "Precedence", "case": "bseq%d/step%d/paths%d" % (i, step, shape), "flags": absent, "file": fv, "delivery": "build_sequence",
+                        "paths": shape, "rejected": r1.returncode != 0, "mutated": True, "observed": obs,
+                        "history": [x, y, x][:step + 1]})
+        shutil.rmtree(root, ignore_errors=True)
+        return evs
+    out = []
+    with ThreadPoolExecutor(max_workers=12) as ex:
+        for evs in ex.map(work, enumerate(seqs)):
+            out.extend(evs)
+    return out
+
+
+def write_conf_only(root, file_settings, shape):
+    """rewrite tauri.conf.json of an existing precedence sandbox, nothing else"""
+    sh = PATH_SHAPES[shape]
+    m = {"project": "projectPath", "output": "outputPath", "library": "validationLibrary", "verbose": "verbose", "force": "force"}
+    tg = {}
+    for s_, v in file_settings.items():
+        if v == "absent":
+            continue
+        if s_ == "project":
+            tg[m[s_]] = {"A": sh["pA"], "B": sh["pB"]}[v]
+        elif s_ == "output":
+            tg[m[s_]] = {"A": sh["oA"], "B": sh["oB"]}[v]
+        elif s_ == "library":
+            tg[m[s_]] = v
+        else:
+            tg[m[s_]] = (v == "true")
+    doc = {"productName": "demo", "plugins": {"shell": {"open": True}, "typegen": tg}}
+    with open(os.path.join(root, "tauri.conf.json"), "w") as f:
+        json.dump(doc, f, indent=2)
+
+
 def part_c(d):
     """`init` with an unsupported library / a missing project path, for every kind of configuration target"""
     evs = []
@@ -380,7 +448,8 @@ def run(tier, seed):
     ea, nshapes = part_a(d, tier, seed)
     eb, ncombos, nrej = part_b(d, tier, seed)
     ec = part_c(d)
-    events = ea + eb + ec
+    ed = part_d(d)
+    events = ea + eb + ec + ed
     mism_all = []
     CH = 4000
     for ci in range(0, len(events), CH):
@@ -411,9 +480,12 @@ def run(tier, seed):
             fl = ",".join("%s=%s" % (k, v) for k, v in sorted(ev["flags"].items()) if v != "absent")
             fi = ",".join("%s=%s" % (k, v) for k, v in sorted(ev["file"].items()) if v != "absent")
             # canonical key: the settings that differ and where the invalid value sits
-            verdicts.reject("prec what=%s detail=%s invalid=%s" % (w0, detail[:80], _invalid(ev)), "flags[%s] file[%s]" % (fl, fi),
-                            "flags {%s} + tauri.conf.json {%s}: %s %s; observed %s rejected=%s mutated=%s"
-                            % (fl, fi, w0, detail, ev["observed"], ev["rejected"], ev["mutated"]), ev)
+            seq = ""
+            if ev.get("delivery") == "build_sequence":
+                seq = " [build-script path, step %d of the configuration sequence %s over one output directory]" % (len(ev["history"]), json.dumps(ev["history"]))
+            verdicts.reject("prec what=%s detail=%s invalid=%s%s" % (w0, detail[:80], _invalid(ev), " build-sequence" if seq else ""), "flags[%s] file[%s]" % (fl, fi),
+                            "flags {%s} + tauri.conf.json {%s}: %s %s; observed %s rejected=%s mutated=%s%s"
+                            % (fl, fi, w0, detail, ev["observed"], ev["rejected"], ev["mutated"], seq), ev)
     rc = verdicts.finish()
     C.write_evidence(PROP, tier, seed, "exploration", {
         "evaluations": len(events),
@@ -422,7 +494,7 @@ def run(tier, seed):
                 "(B) %d of %d TLC-enumerated flag/file combinations (+%d with one invalid value) run twice on the real CLI; "
                 "distinct = distinct (shape, fill) / (flags, file)" % (nshapes, len(eb) - nrej, ncombos, nrej),
         "samples": [{"case": e["case"], "plugins": e.get("plugins"), "flags": e.get("flags"), "file": e.get("file")} for e in events[:: max(1, len(events) // 6)][:6]],
-        "documents": len(ea), "precedence_runs": len(eb),
+        "documents": len(ea), "precedence_runs": len(eb), "build_sequence_runs": len(ed),
         "traces_validated_against_impl": len(events),
         "known_findings_matched": len(verdicts.known_hit),
         "exhaustive": tier == "thorough",
